@@ -83,3 +83,21 @@ def local_project(p, origin):
     """equirectangular tangent-plane coordinates (metres): y north, x east, around origin"""
     dlon = (p[1] - origin[1] + 180.0) % 360.0 - 180.0          # shortest way round (the map may straddle the antimeridian)
     return (R * math.radians(p[0] - origin[0]), R * math.cos(math.radians(origin[0])) * math.radians(dlon))
+
+
+def foot_on_great_circle(p, a, b):
+    """foot of the perpendicular from p on the WHOLE great circle through a and b: (distance in metres, foot point,
+    signed relative position: 0 at a, 1 at b, negative before a)"""
+    P, A, B = vec(*p), vec(*a), vec(*b)
+    n = (A[1] * B[2] - A[2] * B[1], A[2] * B[0] - A[0] * B[2], A[0] * B[1] - A[1] * B[0])
+    ln = math.sqrt(sum(x * x for x in n))
+    n = tuple(x / ln for x in n)
+    dpn = sum(x * y for x, y in zip(P, n))
+    F = tuple(x - dpn * y for x, y in zip(P, n))
+    lf = math.sqrt(sum(x * x for x in F))
+    F = tuple(x / lf for x in F)
+    # signed angle from A to F around n
+    c = (A[1] * F[2] - A[2] * F[1], A[2] * F[0] - A[0] * F[2], A[0] * F[1] - A[1] * F[0])
+    ang = math.atan2(sum(x * y for x, y in zip(c, n)), sum(x * y for x, y in zip(A, F)))
+    tot = angle(A, B)
+    return R * abs(math.asin(max(-1.0, min(1.0, dpn)))), latlon(F), ang / tot
